@@ -955,30 +955,40 @@ func ser(c px.Context, o opts, cp caps, vs sx.Sexp) core.Result {
 		return fail("ser-panic", "ser-panic", fmt.Sprint(err))
 	}
 
+	// stream laws first: a stream with a dangling reference is not fed to the collector (a reference to a container that
+	// is still open would make it build a cyclic value, on which printing and Equals do not terminate; the model answers
+	// `err` for both kinds of dangling reference)
+	l := &laws{}
+	expanded := l.expand(stream, false)
+
 	// deserialize the recorded events with the real collector
 	out := evs + " | "
 	var back px.Value
-	derr := safely(func() {
-		ds := serialization.NewDeserializer(c, px.EmptyMap)
-		feed(stream, ds)
-		back = ds.Value()
-	})
-	if derr != nil {
+	var derr interface{}
+	if l.dangling != "" {
+		derr = l.dangling
 		out += "err"
 	} else {
-		p := &printer{ids: map[interface{}]int{}}
-		if err := safely(func() { p.print(back) }); err != nil {
+		derr = safely(func() {
+			ds := serialization.NewDeserializer(c, px.EmptyMap)
+			feed(stream, ds)
+			back = ds.Value()
+		})
+		if derr != nil {
 			out += "err"
-			derr = err
 		} else {
-			out += p.sb.String()
+			p := &printer{ids: map[interface{}]int{}}
+			if err := safely(func() { p.print(back) }); err != nil {
+				out += "err"
+				derr = err
+			} else {
+				out += p.sb.String()
+			}
 		}
 	}
 
 	// ---- the property, directly on the implementation (judge) ----
 	// stream laws: hold for every value, option and capability
-	l := &laws{}
-	expanded := l.expand(stream, false)
 	if l.dangling != "" {
 		return fail(out, "dangling-ref", l.dangling)
 	}
